@@ -20,6 +20,10 @@ struct Case {
     t: u16,
     idkind: IdKind,
     seed: String,
+    /// very large threshold: only the first and the last participant run part 3 (everybody runs parts 1
+    /// and 2; round-one packages cross the wire); no subset enumeration
+    #[serde(default)]
+    partial: bool,
 }
 
 impl Prop for C07 {
@@ -54,7 +58,7 @@ impl Prop for C07 {
                         continue;
                     }
                     for k in 0..tier.pick(1, 3) {
-                        out.push(serde_json::to_value(Case { suite: suite.to_string(), n, t, idkind, seed: format!("s{seed}.{k}") }).unwrap());
+                        out.push(serde_json::to_value(Case { suite: suite.to_string(), n, t, idkind, seed: format!("s{seed}.{k}"), partial: false }).unwrap());
                     }
                 }
             }
@@ -62,8 +66,12 @@ impl Prop for C07 {
         // larger groups: t = n = 20 and (40, 2) (ed448: 12 / 20)
         for suite in REAL_SUITES {
             let (a, b) = if suite == "ed448" { (12u16, 20u16) } else { (20u16, 40u16) };
-            out.push(serde_json::to_value(Case { suite: suite.to_string(), n: a, t: a, idkind: IdKind::Mixed, seed: format!("s{seed}.big") }).unwrap());
-            out.push(serde_json::to_value(Case { suite: suite.to_string(), n: b, t: 2, idkind: IdKind::U16x, seed: format!("s{seed}.big") }).unwrap());
+            out.push(serde_json::to_value(Case { suite: suite.to_string(), n: a, t: a, idkind: IdKind::Mixed, seed: format!("s{seed}.big"), partial: false }).unwrap());
+            out.push(serde_json::to_value(Case { suite: suite.to_string(), n: b, t: 2, idkind: IdKind::U16x, seed: format!("s{seed}.big"), partial: false }).unwrap());
+        }
+        // thresholds above 255 (ed25519 in the quick tier)
+        for suite in if tier == Tier::Thorough { vec!["ed25519", "secp256k1-tr", "p256"] } else { vec!["ed25519"] } {
+            out.push(serde_json::to_value(Case { suite: suite.to_string(), n: 257, t: 256, idkind: IdKind::Seq, seed: format!("s{seed}.t256"), partial: true }).unwrap());
         }
         out
     }
@@ -100,12 +108,45 @@ pub fn bip341_output_key(internal_sec1: &[u8], merkle_root: Option<&[u8]>) -> Op
     Some((q.serialize(), parity == secp256k1::Parity::Odd, t))
 }
 
+/// parts 1 and 2 for everybody, in parallel; every round-one package crosses the wire (binary for even
+/// positions, JSON for odd ones) before anybody uses it
+fn dkg_run_parallel_wire<C: Suite>(n: u16, t: u16, idlist: &[Id<C>], seed: &str) -> Result<DkgRun<C>, String> {
+    use rayon::prelude::*;
+    let (sp1, p1) = dkg_round1::<C>(n, t, idlist, seed)?;
+    let mut p1w = BTreeMap::new();
+    for (k, (id, p)) in p1.iter().enumerate() {
+        let d = if k % 2 == 0 {
+            p.serialize().ok().and_then(|b| fc::keys::dkg::round1::Package::<C>::deserialize(&b).ok())
+        } else {
+            serde_json::to_string(p).ok().and_then(|j| serde_json::from_str(&j).ok())
+        };
+        p1w.insert(*id, d.ok_or_else(|| format!("round-one package of participant #{k} does not survive its own encoding"))?);
+    }
+    let r: Vec<Result<_, String>> = idlist
+        .par_iter()
+        .map(|id| {
+            let r1 = others::<C, _>(&p1w, id);
+            C::w_part2(sp1[id].clone(), &r1).map(|(s, p)| (*id, s, p)).map_err(e2s("part2"))
+        })
+        .collect();
+    let mut sp2 = BTreeMap::new();
+    let mut p2 = BTreeMap::new();
+    for x in r {
+        let (id, s, p) = x?;
+        sp2.insert(id, s);
+        p2.insert(id, p);
+    }
+    let mut ids = idlist.to_vec();
+    ids.sort();
+    Ok(DkgRun { ids, sp1, p1: p1w, sp2, p2 })
+}
+
 fn run_case<C: Suite>(c: &Case) -> Outcome {
     let mut o = Outcome::new();
     let tag = format!("C07/{}", C::name());
     let ctx = format!("n={} t={} ids={:?} seed={}", c.n, c.t, c.idkind, c.seed);
     let idlist = make_ids::<C>(c.idkind, c.n as usize);
-    let run = match dkg_run::<C>(c.n, c.t, &idlist, &c.seed) {
+    let run = match if c.partial { dkg_run_parallel_wire::<C>(c.n, c.t, &idlist, &c.seed) } else { dkg_run::<C>(c.n, c.t, &idlist, &c.seed) } {
         Ok(r) => r,
         Err(e) => {
             o.eval(false);
@@ -121,7 +162,8 @@ fn run_case<C: Suite>(c: &Case) -> Outcome {
     };
     let mut kps = BTreeMap::new();
     let mut pkps = vec![];
-    for id in &run.ids {
+    let finishers: Vec<Id<C>> = if c.partial { vec![run.ids[0], *run.ids.last().unwrap()] } else { run.ids.clone() };
+    for id in &finishers {
         match C::w_part3(&run.sp2[id], &others::<C, _>(&run.p1, id), &r2_for::<C>(&run, id)) {
             Ok((kp, pkp)) => {
                 kps.insert(*id, kp);
@@ -210,7 +252,10 @@ fn run_case<C: Suite>(c: &Case) -> Outcome {
     }
     // every t-subset interpolates to the key and signs
     let m = message(2);
-    let all_subsets: Vec<u32> = if c.n <= 8 {
+    let all_subsets: Vec<u32> = if c.partial {
+        o.count("partial_runs", 1);
+        vec![]
+    } else if c.n <= 8 {
         subsets(c.n as usize, c.t as usize, c.t as usize)
     } else if c.n <= 31 {
         // big shapes: the first t, the last t
